@@ -8,7 +8,7 @@
     [..._refuted] facts show to miscount. The per-piece theorems hold for both variants. *)
 From Coq Require Import ZArith Reals List Bool Floats.
 From KV Require Import Scalar RInst F64 Geom Curves Path Solvers Winding WindingSpec C01_proofs.
-From KV Require C01_float C01_order C01_float_order.
+From KV Require C01_float C01_order C01_float_order C01_topological.
 Import ListNotations.
 Local Open Scope R_scope.
 
@@ -257,10 +257,46 @@ Example C01_ex_closed_chain :
   closed_chain ps /\ right_of_all (mkPoint 5 3) ps.
 Proof. exact ex_closed_chain. Qed.
 
+(** ** 6. Closed polygons: the model's winding number IS the topological winding number
+
+    [polygon_topological_winding v0 vs p] (spec/WindingSpec.v) is (1 / 2 pi) times the sum over the edges of the closed
+    polygon (closing edge included) of the signed angle in (-pi, pi) the edge subtends at p,
+    atan2 (cross (s - p) (e - p)) (dot (s - p) (e - p)), counter-clockwise positive in (x right, y up) axes — the
+    orientation in which kurbo's signed area is positive. For EVERY closed polygon and EVERY p not on it (vertex
+    rows included) the model returns exactly that number. Proof (proofs/C01_topological.v): per edge,
+    dtheta = phi(end) - phi(start) + 2 pi * (half-open crossing of the leftward ray), phi being the argument with
+    its branch cut on the ray the code casts (the ray itself on the lower sheet); the phi terms telescope. *)
+Theorem C01_polygon_winding_topological : forall (v0 : Point R) (vs : list (Point R)) (p : Point R),
+  off_polygon v0 vs p ->
+  exists w : Z, path_winding (polygon_els v0 vs) p = Some w /\ IZR w = polygon_topological_winding v0 vs p.
+Proof. exact C01_topological.polygon_winding_topological. Qed.
+
+(** the per-edge identity behind it *)
+Theorem C01_edge_angle_crossing : forall s e p : Point R, ~ on_edge s e p ->
+  edge_dtheta p s e =
+  C01_topological.phiP p e - C01_topological.phiP p s + 2 * PI * IZR (edge_crossing s e p).
+Proof. exact C01_topological.edge_dtheta_crossing. Qed.
+
+(** the classical crossing number of a closed polygon is its topological winding number (no model involved) *)
+Theorem C01_crossing_number_topological : forall (v0 : Point R) (vs : list (Point R)) (p : Point R),
+  off_polygon v0 vs p -> IZR (poly_crossing_number v0 vs p) = polygon_topological_winding v0 vs p.
+Proof. exact C01_topological.polygon_crossing_number_topological. Qed.
+
+(* non-vacuity and sign convention: the counter-clockwise unit square about its centre *)
+Example C01_ex_square_off_polygon :
+  off_polygon (mkPoint 0 0) [mkPoint 1 0; mkPoint 1 1; mkPoint 0 1] (mkPoint (/ 2) (/ 2)).
+Proof. exact C01_topological.ex_square_off. Qed.
+Example C01_ex_square_topological :
+  polygon_topological_winding (mkPoint 0 0) [mkPoint 1 0; mkPoint 1 1; mkPoint 0 1] (mkPoint (/ 2) (/ 2)) = 1.
+Proof. exact C01_topological.ex_square_topological. Qed.
+Example C01_ex_edge_quarter_turn :
+  edge_dtheta (mkPoint (/ 2) (/ 2)) (mkPoint 0 0) (mkPoint 1 0) = PI / 2.
+Proof. exact C01_topological.ex_edge_quarter_turn. Qed.
+
 (** ** The full property (NOT proved): for every closed path and every point off the path the ray cast equals
     the topological winding number (1/2pi) * sum over segments of the integral of d(theta); an affine map
-    multiplies it by the sign of its determinant. Proved above: the polygon case as the classical crossing number
-    (whose equality with the angle integral is the textbook argument, not formalised here), the per-piece
+    multiplies it by the sign of its determinant. Proved above: the polygon case in full (section 6: ray cast = angle-sum winding number; the angle sum equals
+    the integral of d(theta) along each straight edge, which is not formalised), the per-piece
     rule for monotone curved pieces in exact arithmetic, and the outside/reversal/splitting consequences.
     Missing for curved paths: (i) the degenerate degrees (y-polynomial of lower degree than the segment's kind: the
     real-number run of the solver models is meaningless there; binary64 takes the solvers' other branches), (ii) the crossing count of a monotone piece equals its change of argument across
